@@ -281,6 +281,28 @@ class M3(M):
         return self.get_conn().post("/m/a3", **kw)
 
 
+class M4(MCallerHttp):
+    """a caller whose components live under prefixes that differ only in their slashes ('/srv' + 'list' and
+    '/srv/' + 'list' are two addresses)"""
+    _HTTP_PREFIX_MAP = {'s1': '/srv', 's2': '/srv/', 's3': 'srv', 's4': '/Srv'}
+
+    @method_http(None, 's1')
+    def call_s1(self):
+        return self.get_conn().get("list")
+
+    @method_http(None, 's2')
+    def call_s2(self):
+        return self.get_conn().get("list")
+
+    @method_http(None, 's3')
+    def call_s3(self):
+        return self.get_conn().get("list")
+
+    @method_http(None, 's4')
+    def call_s4(self):
+        return self.get_conn().get("list")
+
+
 class M2(MA, MB):
     """another caller class built from the same mixins: it reaches the other component of call_multi"""
     _HTTP_PREFIX_MAP = {'cq': '/cmpQ', 'cb': '', 'cz': '/z'}
@@ -362,6 +384,8 @@ def expected(address, layers, path, method, params, data, headers):
                 sp = sp[1:]
             path = p + sp
         elif a[0] == 'auth':
+            for k in [k for k in hdr if k.lower() == 'authorization']:
+                del hdr[k]      # (one header, however the caller spelled it)
             hdr['Authorization'] = (a[1], a[2])
         elif a[0] == 'assign':
             if a[1] == 'apikey':
@@ -436,7 +460,7 @@ def _run_history(ctx, rng, case):
     steps = []
 
     def fail(mech, detail):
-        ctx.violation(mech, dict(detail, steps=steps[-6:]), case)
+        ctx.violation(mech, dict(detail, steps=steps[-6:], layers=repr(layers)[:400]), case)
         raise Stop()
 
     def check_req(req, exp, tag):
@@ -496,8 +520,13 @@ def _run_history(ctx, rng, case):
                                  [('tag', 'red'), ('tag', 'blue'), ('page', 1)], (('k', 'v'), ('k', 'v'))])
             data = rng.choice([None, "txt", b"\x00b", {'k': [1, 2]}, [1, "é"], "", 0])
             headers = rng.choice([None, {}, {'X-A': '1'}, {'Content-Type': 'text/x', 'X-B': 'q'},
-                                  {'Authorization': 'Bearer stale-token', 'X-A': '2'}])
-            own_auth = bool(headers) and 'Authorization' in headers
+                                  {'Authorization': 'Bearer stale-token', 'X-A': '2'},
+                                  # (header names are case-insensitive: the same header, spelled the caller's way)
+                                  {'authorization': 'Bearer stale-token'},
+                                  {'X-A': '3', 'aUTHORIZATION': 'Basic c3RhbGU6c3RhbGU='}])
+            own_auth = bool(headers) and any(k.lower() == 'authorization' for k in headers)
+            if own_auth and 'Authorization' not in headers:
+                ctx.count("requests_whose_caller_spells_the_authorization_header_its_own_way")
             layer_auth = any(a[0] == 'auth' for layer in lay for a in layer)
             keep = copy.deepcopy((params, data, headers))
             exp = expected(address, lay, path, verb.upper(), *copy.deepcopy(keep))
@@ -655,6 +684,20 @@ def _run_history(ctx, rng, case):
             check_req(op.reqs[-1], expected(address, ml + suffix, path, method, None, None, None),
                       "derived caller class " + name)
             ctx.count("wrappers_of_a_derived_caller_class_called")
+        # components whose prefixes read alike, all used through ONE caller object, in any order, more than once
+        m4 = M4(conn if isinstance(conn, H.HttpConn) else H.HttpConn(conn))
+        names = [("call_s1", "/srv"), ("call_s2", "/srv/"), ("call_s3", "srv"), ("call_s4", "/Srv")]
+        for name, prefix in [rng.choice(names) for _ in range(5)]:
+            del log[:]
+            steps.append(["caller with look-alike prefixes", name])
+            try:
+                getattr(m4, name)()
+            except Exception as err:
+                fail("method-caller-raises", {"step": "caller with look-alike prefixes", "method": name,
+                                              "type": type(err).__name__, "msg": str(err)[:150]})
+            check_req(op.reqs[-1], expected(address, ml + [[('prefix', prefix)]], "list", "GET", None, None, None),
+                      "caller with look-alike prefixes " + name)
+            ctx.count("wrappers_of_components_with_look_alike_prefixes_called")
         for mc, lay, tag in [(cl, cl_layers, "clone " + how), (m, ml, "caller after clone"),
                              (cl, cl_layers, "clone again")]:
             for name, suffix, path, method in (("call_a", [[('prefix', '/cmpA')]], "/m/a", "POST"),
